@@ -59,6 +59,13 @@ void COTPdoInit(CO_TPDO *pdo, CO_NODE *node)
     COTPdoMapClear(node->TMap);
     for (num = 0; num < CO_TPDO_N; num++) {
         pdo[num].Node       = node;
+        /* stop timers of an earlier operational phase */
+        if (pdo[num].EvTmr >= 0) {
+            (void)COTmrDelete(&node->Tmr, pdo[num].EvTmr);
+        }
+        if (pdo[num].InTmr >= 0) {
+            (void)COTmrDelete(&node->Tmr, pdo[num].InTmr);
+        }
         pdo[num].EvTmr      = -1;
         pdo[num].InTmr      = -1;
         pdo[num].Identifier = CO_TPDO_COBID_OFF;
